@@ -1,6 +1,7 @@
 package main
 
 import (
+	"cuelang.org/go/cue"
 	"runtime"
 	"strconv"
 	"strings"
@@ -16,3 +17,5 @@ func goid() int64 {
 	id, _ := strconv.ParseInt(s[:i], 10, 64)
 	return id
 }
+
+func cuePath(s string) cue.Path { return cue.ParsePath(s) }
